@@ -32,6 +32,10 @@ type c10Case struct {
 	Ignore   bool   `json:"ignore,omitempty"`
 	CC       string `json:"cc"`            // "reno" or "bbr:<profile>"
 	Hdr      string `json:"hdr,omitempty"` // header string for the *-header kinds ("<missing>" = absent)
+	// NoUDP: the server runs with DisableUDP (a neighbouring option that changes what the auth
+	// handler does after answering; added after the independently seeded change C10-6: the sender
+	// was installed behind the early return of that option)
+	NoUDP bool `json:"server_disable_udp,omitempty"`
 }
 
 var (
@@ -138,6 +142,7 @@ func c10Run(c *c10Case) string {
 			cfg.BandwidthConfig = BandwidthConfig{MaxTx: c.STx, MaxRx: c.SRx}
 			cfg.IgnoreClientBandwidth = c.Ignore
 			cfg.CongestionConfig = CongestionConfig{Type: typ, BBRProfile: prof}
+			cfg.DisableUDP = c.NoUDP
 		}})
 		if r.srv == nil {
 			return
@@ -324,26 +329,28 @@ func c10Enumerate(sh *evidence.Shard) {
 		}
 		p.Evaluations++
 		clause := c10Run(&c)
-		p.Class(c.Kind, c.CTx, c.CRx, c.STx, c.SRx, c.Ignore, c.Hdr, clause == "")
+		p.Class(c.Kind, c.CTx, c.CRx, c.STx, c.SRx, c.Ignore, c.Hdr, c.NoUDP, clause == "")
 		if p.Evaluations%997 == 5 {
 			p.Sample(c)
 		}
 		if clause != "" {
 			cc := c
-			sh.Violate(p.Name, fmt.Sprintf("%s/%s/ctx=%d,crx=%d,stx=%d,srx=%d,ignore=%v,cc=%s,hdr=%q", p.Name, strings.SplitN(clause, ";", 2)[0], c.CTx, c.CRx, c.STx, c.SRx, c.Ignore, c.CC, c.Hdr), clause, &cc)
+			sh.Violate(p.Name, fmt.Sprintf("%s/%s/ctx=%d,crx=%d,stx=%d,srx=%d,ignore=%v,cc=%s,hdr=%q,noudp=%v", p.Name, strings.SplitN(clause, ";", 2)[0], c.CTx, c.CRx, c.STx, c.SRx, c.Ignore, c.CC, c.Hdr, c.NoUDP), clause, &cc)
 		}
 		return sh.NViolations() < 6
 	}
 	p1 := sh.Part("handshake-grid", "enum")
-	p1.Alphabet = map[string]any{"client MaxTx/MaxRx": c10ClientVals, "server MaxTx/MaxRx": c10ServerVals, "ignore_client_bandwidth": []bool{false, true}, "congestion": c10CCs}
+	p1.Alphabet = map[string]any{"client MaxTx/MaxRx": c10ClientVals, "server MaxTx/MaxRx": c10ServerVals, "ignore_client_bandwidth": []bool{false, true}, "congestion": c10CCs, "server DisableUDP": []bool{false, true}}
 	for _, ctx := range c10ClientVals {
 		for _, crx := range c10ClientVals {
 			for _, stx := range c10ServerVals {
 				for _, srx := range c10ServerVals {
 					for _, ig := range []bool{false, true} {
 						for _, cc := range c10CCs {
-							if !run(p1, c10Case{Kind: "grid", CTx: ctx, CRx: crx, STx: stx, SRx: srx, Ignore: ig, CC: cc}) {
-								return
+							for _, noUDP := range []bool{false, true} {
+								if !run(p1, c10Case{Kind: "grid", CTx: ctx, CRx: crx, STx: stx, SRx: srx, Ignore: ig, CC: cc, NoUDP: noUDP}) {
+									return
+								}
 							}
 						}
 					}
